@@ -44,20 +44,29 @@ theorem rx_exact (kind : Kind) (wl : Bool) (sends : List SResp) (recvs : List RR
       (run (init kind wl sends recvs) ops).kdel :=
   (run_inv ops (init_inv kind wl sends recvs hs)).rx
 
-/-- C09.3 an attached wire log records exactly the bytes actually sent and actually received -/
-theorem wire_log_exact (kind : Kind) (sends : List SResp) (recvs : List RResp) (ops : List Op) (hs : PeerSafe kind) :
-    (run (init kind true sends recvs) ops).wireTx = (run (init kind true sends recvs) ops).kacc ∧
-    (run (init kind true sends recvs) ops).wireRx = (run (init kind true sends recvs) ops).kdel := by
-  have h := run_inv ops (init_inv kind true sends recvs (Or.inr hs))
-  have hw : (run (init kind true sends recvs) ops).wl = true := by rw [run_wl]; rfl
-  exact ⟨by simpa [hw] using h.wtx, by simpa [hw] using h.wrx⟩
+/-- C09.3 an attached wire log records, PER ENABLED DIRECTION (`txed`, `rxed`), exactly the bytes actually sent / actually
+received, and nothing in a direction that is switched off — whatever the other direction is set to -/
+theorem wire_log_exact (kind : Kind) (sends : List SResp) (recvs : List RResp) (ops : List Op) (txed rxed : Bool)
+    (hs : PeerSafe kind) :
+    (run (init kind true sends recvs txed rxed) ops).wireTx =
+      (if txed then (run (init kind true sends recvs txed rxed) ops).kacc else []) ∧
+    (run (init kind true sends recvs txed rxed) ops).wireRx =
+      (if rxed then (run (init kind true sends recvs txed rxed) ops).kdel else []) := by
+  have h := run_inv ops (init_inv kind true sends recvs (Or.inr hs) txed rxed)
+  have hf := run_wl ops (init kind true sends recvs txed rxed)
+  generalize run (init kind true sends recvs txed rxed) ops = c at h hf ⊢
+  simp only [Conn.flags, init, Bool.true_and, Prod.mk.injEq] at hf
+  exact ⟨by rw [h.wtx, hf.2.1], by rw [h.wrx, hf.2.2]⟩
 
 /-- without a wire log nothing is recorded -/
-theorem wire_log_absent (kind : Kind) (sends : List SResp) (recvs : List RResp) (ops : List Op) :
-    (run (init kind false sends recvs) ops).wireTx = [] ∧ (run (init kind false sends recvs) ops).wireRx = [] := by
-  have h := run_inv ops (init_inv kind false sends recvs (Or.inl rfl))
-  have hw : (run (init kind false sends recvs) ops).wl = false := by rw [run_wl]; rfl
-  exact ⟨by simpa [hw] using h.wtx, by simpa [hw] using h.wrx⟩
+theorem wire_log_absent (kind : Kind) (sends : List SResp) (recvs : List RResp) (ops : List Op) (txed rxed : Bool) :
+    (run (init kind false sends recvs txed rxed) ops).wireTx = [] ∧
+    (run (init kind false sends recvs txed rxed) ops).wireRx = [] := by
+  have h := run_inv ops (init_inv kind false sends recvs (Or.inl rfl) txed rxed)
+  have hf := run_wl ops (init kind false sends recvs txed rxed)
+  generalize run (init kind false sends recvs txed rxed) ops = c at h hf ⊢
+  simp only [Conn.flags, init, Bool.false_and, Prod.mk.injEq] at hf
+  exact ⟨by rw [h.wtx, hf.2.1]; rfl, by rw [h.wrx, hf.2.2]; rfl⟩
 
 /-- the guard is discharged for `Client`, `ClientTls` and `Remoter` (re-checked against the flags probed from the code):
 for these classes every theorem of this file holds with a wire log attached and the peer resetting at any moment -/
